@@ -116,6 +116,8 @@ class Array:
             if not float_values:
                 raise ValueError("Can't calculate an 'auto' scale with an empty Array initializer.")
             max_float_value = max(abs(x) for x in float_values)
+            if not math.isfinite(max_float_value):
+                raise ValueError("Can't calculate an 'auto' scale with infinite or NaN values in the Array initializer.")
             if max_float_value == 0:
                 # This special case isn't covered in the standard. I'm choosing to return no scale.
                 return 1.0
@@ -152,7 +154,7 @@ class Array:
 
     def _set_dtype(self, new_dtype: Union[str, Dtype]) -> None:
         if isinstance(new_dtype, Dtype):
-            self._dtype = new_dtype
+            dtype = new_dtype
         else:
             try:
                 dtype = Dtype(new_dtype)
@@ -162,11 +164,13 @@ class Array:
                     dtype = Dtype(name_length[0], name_length[1])
                 else:
                     raise ValueError(f"Inappropriate Dtype for Array: '{new_dtype}'.")
-            if dtype.length is None:
-                raise ValueError(f"A fixed length format is needed for an Array, received '{new_dtype}'.")
-            self._dtype = dtype
-        if self._dtype.scale == 'auto':
+        if dtype.length is None:
+            raise ValueError(f"A fixed length format is needed for an Array, received '{new_dtype}'.")
+        if dtype.bitlength == 0:
+            raise ValueError(f"A format with a non-zero length is needed for an Array, received '{new_dtype}'.")
+        if dtype.scale == 'auto':
             raise ValueError("A Dtype with an 'auto' scale factor can only be used when creating a new Array.")
+        self._dtype = dtype
 
     def _create_element(self, value: ElementType) -> Bits:
         """Create Bits from value according to the token_name and token_length"""
@@ -432,6 +436,8 @@ class Array:
                 token_length = dtype2.bitlength
         if token_length is None:
             token_length = self.itemsize
+        if token_length == 0:
+            raise ValueError(f"The format '{fmt}' has a length of zero bits so can't be used to print the Array.")
 
         trailing_bit_length = len(self.data) % token_length
         format_sep = " : "  # String to insert on each line between multiple formats
